@@ -3,8 +3,9 @@ from __future__ import annotations
 
 import ast
 
-from sa import source
+from sa import pat, source
 from sa.cfg import cfg_of, guards
+from sa.classes import is_logging_call
 from sa.source import AnchorMissing, arg_of, dotted, is_self_attr, last_attr, local_defs, params_of, short, u, walk_body
 
 _T = "esrally/mechanic/team.py"
@@ -27,6 +28,11 @@ def merges_into(func, target: str):
             out.append((f"[{u(n.targets[0].slice)}]", n))
     out.sort(key=lambda x: (x[1].lineno, x[1].col_offset))
     return out, g
+
+
+def assigns_to(func, name: str):
+    """the (annotated or plain) assignment statements of `func` whose target is `name`."""
+    return [n for n in walk_body(func) if (isinstance(n, ast.Assign) and len(n.targets) == 1 and u(n.targets[0]) == name) or (isinstance(n, ast.AnnAssign) and n.value is not None and u(n.target) == name)]
 
 
 def ordered(g, a, b):
@@ -53,10 +59,25 @@ def run(chk):
              "any two sources defining one key: the documented precedence is inverted (e.g. a car overrides http_port, or --car-params does not override a mixin)")
     lc = tm.func("load_car")
     lp = params_of(lc)
+    if len(lp) < 3:
+        raise AnchorMissing("team.load_car(repo, name, car_params)")
+    CL = tm.cls("CarLoader")
+    cl = tm.methods(CL).get("load_car")
+    if cl is None:
+        raise AnchorMissing("CarLoader.load_car")
+    cp = params_of(cl)
+    if len(cp) < 3:
+        raise AnchorMissing("CarLoader.load_car(self, name, car_params)")
     ret = [n for n in walk_body(lc) if isinstance(n, ast.Return) and isinstance(n.value, ast.Call) and last_attr(n.value.func) == "Car"]
     if not ret:
         raise AnchorMissing("return Car(...) in team.load_car")
-    var = u(ret[0].value.args[3]) if len(ret[0].value.args) >= 4 else None
+    car_init = tm.methods(tm.cls("Car")).get("__init__")
+    if car_init is None:
+        raise AnchorMissing("Car.__init__")
+    cargs = source.bind_args(ret[0].value, car_init)  # Car(...) arguments by PARAMETER name (positional or keyword)
+    if "variables" not in cargs or "config_paths" not in cargs:
+        raise AnchorMissing("variables / config_paths argument of Car(...) in team.load_car")
+    var = u(cargs["variables"])
     seq, g = merges_into(lc, var)
     names = [s for s, _ in seq]
     # classify accumulators by what is merged into them in the loop
@@ -76,35 +97,47 @@ def run(chk):
     ok = role_seq == ["config-base", "car"] and all(not guards(n) for _, n in seq) and ordered(g, seq[0][1], seq[1][1]) if len(seq) == 2 else False
     chk.ob("O13.1", "loader: config-base variables merged before car variables", ok, seq[0][1] if seq else lc, f"merge order into `{var}`: {role_seq}")
     dl = [n for n in ast.walk(loop[0]) if isinstance(n, ast.Call) and last_attr(n.func) == "load_car"] if loop else []
-    ok = bool(dl) and len(dl[0].args) >= 2 and u(dl[0].args[0]) == loop[0].target.id and u(dl[0].args[1]) == lp[2]
+    dargs = source.bind_args(dl[0], cl) if dl else {}  # by parameter name of CarLoader.load_car
+    ok = bool(dl) and u(dargs.get(cp[1])) == u(loop[0].target) and u(dargs.get(cp[2])) == lp[2]
     chk.ob("O13.1", "car parameters handed to every car/mixin descriptor", ok, dl[0] if dl else lc, "")
-    CL = tm.cls("CarLoader")
-    cl = tm.methods(CL).get("load_car")
-    if cl is None:
-        raise AnchorMissing("CarLoader.load_car")
-    cp = params_of(cl)
     cret = [n for n in walk_body(cl) if isinstance(n, ast.Return) and isinstance(n.value, ast.Call) and last_attr(n.value.func) == "CarDescriptor"]
     if not cret:
         raise AnchorMissing("return CarDescriptor(...)")
-    vvar = u(cret[0].value.args[-1])
-    bvar = u(cret[0].value.args[-2])
-    vdef = [n for n in walk_body(cl) if isinstance(n, ast.Assign) and u(n.targets[0]) == vvar]
-    ok = len(vdef) == 1 and isinstance(vdef[0].value, ast.Call) and last_attr(vdef[0].value.func) == "_copy_section" and source.is_const(vdef[0].value.args[1], "variables") and not guards(vdef[0])
+    cd_init = tm.methods(tm.cls("CarDescriptor")).get("__init__")
+    if cd_init is None:
+        raise AnchorMissing("CarDescriptor.__init__")
+    cdargs = source.bind_args(cret[0].value, cd_init)  # CarDescriptor(...) arguments by parameter name
+    if not {"variables", "config_base_variables", "config_paths"} <= set(cdargs):
+        raise AnchorMissing("variables / config_base_variables / config_paths argument of CarDescriptor(...)")
+    vvar = u(cdargs["variables"])
+    bvar = u(cdargs["config_base_variables"])
+    cs = tm.methods(CL).get("_copy_section")
+    if cs is None or len(params_of(cs)) < 4:
+        raise AnchorMissing("CarLoader._copy_section(self, cfg, section, target)")
+    _, cs_cfg, cs_section, cs_target = params_of(cs)[:4]
+
+    def copy_section_args(call):
+        """arguments of a self._copy_section(...) call by parameter name, {} for any other node."""
+        return source.bind_args(call, cs) if isinstance(call, ast.Call) and last_attr(call.func) == "_copy_section" else {}
+
+    vdef = assigns_to(cl, vvar)
+    va = copy_section_args(vdef[0].value) if len(vdef) == 1 else {}
+    ok = len(vdef) == 1 and cs_section in va and source.is_const(va[cs_section], "variables") and not guards(vdef[0])
     chk.ob("O13.1", "car variables start from the car file's [variables] section", ok, vdef[0] if vdef else cl, "")
     seq2, g2 = merges_into(cl, vvar)
     ok = len(seq2) == 1 and seq2[0][0] == cp[2] and bool(vdef) and ordered(g2, vdef[0], seq2[0][1])
     chk.ob("O13.1", "car parameters merged after the car file's variables", ok, seq2[0][1] if seq2 else cl, f"merges into `{vvar}`: {[s for s, _ in seq2]}")
     if seq2:
         gs = guards(seq2[0][1])
-        ok = all(pol and u(t) == cp[2] for t, pol in gs)
+        # every guard FACT (polarity resolved, conjunctions split) is the presence of the parameters themselves
+        ok = all(pat.is_(f, "V_p", "V_p is not None", binds={"p": cp[2]}) for f in pat.fact_nodes(seq2[0][1]))
         chk.ob("O13.1", "car parameters applied to every descriptor (guarded only by their presence)", ok, seq2[0][1], f"guards {[(u(t), p) for t, p in gs]}" + ("" if ok else " — mixins / cars on the other branch do not get the parameters"))
-    cb = [n for n in walk_body(cl) if isinstance(n, ast.Call) and last_attr(n.func) == "_copy_section" and len(n.args) == 3 and u(n.args[2]) == bvar]
-    ok = bool(cb) and source.is_const(cb[0].args[1], "variables")
+    cb = [n for n in walk_body(cl) if u(copy_section_args(n).get(cs_target)) == bvar]
+    ok = bool(cb) and source.is_const(copy_section_args(cb[0]).get(cs_section), "variables")
     chk.ob("O13.1", "config-base variables come from each base's config.ini [variables]", ok, cb[0] if cb else cl, "")
     # _copy_section: target.update / item stores of the section
-    cs = tm.methods(CL).get("_copy_section")
-    ok = cs is not None and any(isinstance(n, ast.Return) and u(n.value) == params_of(cs)[3] for n in walk_body(cs))
-    chk.ob("O13.1", "_copy_section returns the target it filled", ok, cs if cs is not None else CL, "")
+    ok = any(isinstance(n, ast.Return) and u(n.value) == cs_target for n in walk_body(cs))
+    chk.ob("O13.1", "_copy_section returns the target it filled", ok, cs, "")
     EI = pv.cls("ElasticsearchInstaller")
     ev_ = pv.methods(EI).get("variables")
     if ev_ is None:
@@ -127,30 +160,47 @@ def run(chk):
     n4 = [s for s, _ in seq4]
     ok = bool(n4) and n4[0] == "self.es_installer.variables"
     chk.ob("O13.1", "provisioner variables start from the installer's variables", ok, seq4[0][1] if seq4 else pvf, f"merge order: {n4}")
-    if "plugin_variables" in n4[1:]:
-        chk.adv("O13.1", "plugin variables are merged after the installer's variables: a plugin parameter named like an internal node variable (http_port, network_host, ...) overrides it (plugins are outside the property's statement)", seq4[1][1])
+    # the plugin-variable accumulator by ROLE: the local that collects `<installer>.variables` in the loop over self.plugin_installers
+    plug_acc = {u(x.func.value) for l in walk_body(pvf) if isinstance(l, ast.For) and u(l.iter) == "self.plugin_installers" for x in ast.walk(l)
+                if isinstance(x, ast.Call) and isinstance(x.func, ast.Attribute) and x.func.attr == "update" and x.args and isinstance(x.args[0], ast.Attribute) and x.args[0].attr == "variables"}
+    late = [n for s_, n in seq4[1:] if s_ in plug_acc]
+    if late:
+        chk.adv("O13.1", "plugin variables are merged after the installer's variables: a plugin parameter named like an internal node variable (http_port, network_host, ...) overrides it (plugins are outside the property's statement)", late[0])
 
     # ---- O13.2 config bases in order without duplicates ---------------------------------------------------------------------------------------------------
     chk.rule("O13.2", "config bases are appended in the given order, guarded by `not in` (no duplicates, no re-ordering)", 3, "two cars sharing a config base: its templates are rendered twice (appended twice)")
-    apps = [n for n in ast.walk(loop[0]) if isinstance(n, ast.Call) and last_attr(n.func) == "append"] if loop else []
-    cfgapp = [n for n in apps if "config" in u(n.func.value)]
+    # the accumulator of the config paths by ROLE: the list that receives, inside the loop over the car names, the elements of an inner loop over `<descriptor>.config_paths`
+    apps = [n for n in ast.walk(loop[0]) if isinstance(n, ast.Call) and last_attr(n.func) == "append" and isinstance(n.func, ast.Attribute) and len(n.args) == 1] if loop else []
+    cfgapp = []
+    for n in apps:
+        inner = source.enclosing(n, ast.For)
+        if inner is not None and inner is not loop[0] and isinstance(inner.iter, ast.Attribute) and inner.iter.attr == "config_paths" and u(n.args[0]) == u(inner.target):
+            cfgapp.append(n)
     ok = False
     if cfgapp:
         a = cfgapp[0]
-        gs = guards(a, stop=loop[0])
-        ok = len(gs) == 1 and gs[0][1] and u(gs[0][0]) == f"{u(a.args[0])} not in {u(a.func.value)}"
-        inner = source.enclosing(a, ast.For)
-        ok = ok and inner is not None and u(inner.iter).endswith(".config_paths")
+        # exactly one guard fact (polarity / arm order resolved): the appended element is not yet in the accumulator
+        fs = pat.fact_nodes(a, stop=loop[0])
+        ok = len(fs) == 1 and pat.is_(fs[0], "E_x not in E_acc", binds={"x": u(a.args[0]), "acc": u(a.func.value)})
     chk.ob("O13.2", "config paths appended under `not in`", ok, cfgapp[0] if cfgapp else lc, "")
     resort = [n for n in walk_body(lc) if isinstance(n, ast.Call) and (dotted(n.func) in ("sorted", "reversed", "set") or last_attr(n.func) in ("sort", "reverse"))]
     chk.ob("O13.2", "no re-ordering of the accumulated paths", not resort, resort[0] if resort else lc, "")
-    ok = len(ret[0].value.args) >= 3 and bool(cfgapp) and u(ret[0].value.args[2]) == u(cfgapp[0].func.value)
+    ok = bool(cfgapp) and u(cargs["config_paths"]) == u(cfgapp[0].func.value)
     chk.ob("O13.2", "the accumulated config paths are the car's config paths", ok, ret[0], "")
-    bl = [n for n in walk_body(cl) if isinstance(n, ast.For) and "config_base" in u(n.iter)]
-    ok = bool(bl) and isinstance(local_defs(cl).get(u(bl[0].iter)), ast.Call) and last_attr(local_defs(cl)[u(bl[0].iter)].func) == "split"
+    # the loop over a car's config bases by ROLE: the loop that fills the descriptor's config paths / copies the bases' [variables] sections
+    dcfg = u(cdargs["config_paths"])
+    fills = [n for n in walk_body(cl) if isinstance(n, ast.Call) and ((last_attr(n.func) == "append" and isinstance(n.func, ast.Attribute) and u(n.func.value) == dcfg) or any(n is c for c in cb))]
+    bl = [l for l in (source.enclosing(n, ast.For) for n in fills) if l is not None and source.enclosing_func(l) is cl]
+    bl = [l for i, l in enumerate(bl) if not any(l is m for m in bl[:i])]
+    it = bl[0].iter if bl else None
+    it = local_defs(cl).get(it.id, it) if isinstance(it, ast.Name) else it
+    ok = bool(bl) and isinstance(it, ast.Call) and last_attr(it.func) == "split"
     chk.ob("O13.2", "a car's config bases are applied in the order written (split on ',')", ok, bl[0] if bl else cl, "")
     req = [n for n in walk_body(lc) if isinstance(n, ast.Raise)]
-    chk.ob("O13.2", "at least one config base is required", bool(req) and any(pol and "== 0" in u(t) for t, pol in guards(req[0])), req[0] if req else lc, "")
+    # a raise whose guard facts say that the accumulated config paths are empty (any polarity / orientation / spelling of emptiness)
+    accv = u(cfgapp[0].func.value) if cfgapp else u(cargs["config_paths"])
+    req_ok = [r for r in req if pat.guarded(r, "len(E_acc) == 0", "not E_acc", "len(E_acc) < 1", "E_acc == []", binds={"acc": accv}) is not None]
+    chk.ob("O13.2", "at least one config base is required", bool(req_ok), req_ok[0] if req_ok else (req[0] if req else lc), "")
 
     # ---- O13.3 template mirroring ---------------------------------------------------------------------------------------------------------------------------
     chk.rule("O13.3", "target path == join(target root, path of the file's directory relative to the source root, name); text files are opened in append mode and receive the rendered template "
@@ -159,38 +209,64 @@ def run(chk):
     walks = [(f, n) for f in pv.functions() for n in walk_body(f) if isinstance(n, ast.For) and isinstance(n.iter, ast.Call) and dotted(n.iter.func) == "os.walk"
              and any(isinstance(x, ast.Call) and last_attr(x.func) == "_render_template" for x in ast.walk(n))]
     chk.ob("O13.3", "template-mirroring sites located (bare and docker provisioner)", len(walks) >= 2, pv.tree, f"{len(walks)} os.walk site(s) rendering templates")
+    rt = pv.func("_render_template")
+    rp = params_of(rt)
+    if len(rp) < 3:
+        raise AnchorMissing("_render_template(env, variables, file_name)")
+
+    def is_join(e, n=2):
+        return isinstance(e, ast.Call) and dotted(e.func) == "os.path.join" and len(e.args) == n and not e.keywords
+
     for fn, W in walks:
         tag = source.qualname(fn)
-        adefs = {}
+        if not (isinstance(W.target, ast.Tuple) and len(W.target.elts) == 3 and isinstance(W.target.elts[0], ast.Name) and isinstance(W.target.elts[2], ast.Name) and W.iter.args):
+            raise AnchorMissing(f"{tag}: `for <root>, <dirs>, <files> in os.walk(<source root>)`")
+        # locals assigned exactly once inside the walk: name -> (value, statement). All names below are derived by ROLE from the data flow, never by spelling.
+        acount, astmt = {}, {}
         for n in ast.walk(W):
             if isinstance(n, ast.Assign) and len(n.targets) == 1 and isinstance(n.targets[0], ast.Name):
-                adefs[n.targets[0].id] = n.value
+                acount[n.targets[0].id] = acount.get(n.targets[0].id, 0) + 1
+                astmt[n.targets[0].id] = n
+        astmt = {k: v for k, v in astmt.items() if acount[k] == 1}
+        adefs = {k: v.value for k, v in astmt.items()}
         src_root = u(W.iter.args[0])
-        rootv = W.target.elts[0].id
-        filesv = W.target.elts[2].id
-        rel = adefs.get("relative_root")
-        relok = rel is not None and (u(rel) in (f"{rootv}[len({src_root}) + 1:]", f"os.path.relpath({rootv}, {src_root})"))
-        chk.ob("O13.3", f"{tag}: relative root == directory path relative to the source root", relok, rel if rel is not None else W, u(rel) if rel is not None else "")
-        tf = [n for n in ast.walk(W) if isinstance(n, ast.Assign) and isinstance(n.targets[0], ast.Name) and n.targets[0].id == "target_file"]
-        ok = False
-        if tf:
-            e = source.inline_node(tf[0].value, {k: v for k, v in adefs.items() if k in ("absolute_target_root",)})
-            fl = source.enclosing(tf[0], ast.For)
-            ok = isinstance(e, ast.Call) and dotted(e.func) == "os.path.join" and len(e.args) == 2 and isinstance(e.args[0], ast.Call) and dotted(e.args[0].func) == "os.path.join" \
-                and len(e.args[0].args) == 2 and u(e.args[0].args[1]) == "relative_root" and u(e.args[1]) == fl.target.id and u(fl.iter) == filesv
-        chk.ob("O13.3", f"{tag}: target file == join(join(target root, relative root), name)", ok, tf[0] if tf else W, u(tf[0].value) if tf else "")
+        rootv = W.target.elts[0].id  # the walked directory (tuple position 0 of os.walk's items)
+        filesv = W.target.elts[2].id  # its file names (tuple position 2)
+        nameloops = [n for n in ast.walk(W) if isinstance(n, ast.For) and n is not W and isinstance(n.iter, ast.Name) and n.iter.id == filesv and isinstance(n.target, ast.Name)]
+        NL = nameloops[0] if nameloops else None
+        namev = NL.target.id if NL is not None else None  # loop variable of the loop over the file names
+        in_nl = lambda k: NL is not None and any(x is astmt[k] for x in ast.walk(NL))  # noqa: E731
+        # source file: the local defined (inside the loop over the names) as join(walked directory, name)
+        srcs = [k for k, v in adefs.items() if in_nl(k) and is_join(v) and pat.is_(v, "os.path.join(V_root, V_name)", binds={"root": rootv, "name": namev})]
+        srcv = srcs[0] if srcs else None
+        # target file: the local that is opened
         opens = [n for n in ast.walk(W) if isinstance(n, ast.Call) and dotted(n.func) == "open"]
+        tgtn = arg_of(opens[0], 0, "file") if opens else None
+        tgtv = tgtn.id if isinstance(tgtn, ast.Name) else None
+        tdef = adefs.get(tgtv) if tgtv is not None and in_nl(tgtv) else None
+        # target file == join(<target dir>, name) with <target dir> == join(target root, <relative root>), each possibly through a single-assignment local
+        tdir = tdef.args[0] if is_join(tdef) else None
+        while isinstance(tdir, ast.Name) and tdir.id in adefs:
+            tdir = adefs[tdir.id]
+        relnode = tdir.args[1] if is_join(tdir) else None
+        rel = adefs.get(relnode.id) if isinstance(relnode, ast.Name) else relnode  # the relative-root expression: second component of the target directory
+        relok = rel is not None and pat.is_(rel, "V_root[len(E_src) + 1:]", "V_root[1 + len(E_src):]", "os.path.relpath(V_root, E_src)", binds={"root": rootv, "src": src_root})
+        chk.ob("O13.3", f"{tag}: relative root == directory path relative to the source root", relok, (astmt[relnode.id] if isinstance(relnode, ast.Name) and relnode.id in astmt else rel) if rel is not None else W, u(rel) if rel is not None else "")
+        ok = is_join(tdef) and is_join(tdir) and rel is not None and isinstance(tdef.args[1], ast.Name) and tdef.args[1].id == namev
+        chk.ob("O13.3", f"{tag}: target file == join(join(target root, relative root), name)", ok, astmt[tgtv] if tdef is not None else W, u(tdef) if tdef is not None else "")
         ok = False
         if opens:
             mode = arg_of(opens[0], 1, "mode")
-            ok = u(opens[0].args[0]) == "target_file" and mode is not None and isinstance(mode, ast.Constant) and mode.value in ("a", "a+", "at") and any(pol and "plain_text" in u(t) for t, pol in guards(opens[0], stop=W))
+            b = pat.guarded(opens[0], "plain_text(V_f)", stop=W)
+            ok = tgtv is not None and mode is not None and isinstance(mode, ast.Constant) and mode.value in ("a", "a+", "at") and b is not None and b["f"] in (srcv, tgtv)
         chk.ob("O13.3", f"{tag}: text files opened in append mode", ok, opens[0] if opens else W, f"mode={u(arg_of(opens[0], 1, 'mode')) if opens else None}")
-        wr = [n for n in ast.walk(W) if isinstance(n, ast.Call) and last_attr(n.func) == "write"]
-        ok = bool(wr) and isinstance(wr[0].args[0], ast.Call) and last_attr(wr[0].args[0].func) == "_render_template" and u(wr[0].args[0].args[2]) == "source_file"
+        wr = [n for n in ast.walk(W) if isinstance(n, ast.Call) and last_attr(n.func) == "write" and n.args]
+        wa = source.bind_args(wr[0].args[0], rt) if wr and isinstance(wr[0].args[0], ast.Call) and last_attr(wr[0].args[0].func) == "_render_template" else {}
+        ok = bool(wa) and srcv is not None and u(wa.get(rp[2])) == srcv
         chk.ob("O13.3", f"{tag}: the rendered template is written", ok, wr[0] if wr else W, "")
         # templates are looked up by BASE name, so the environment (and with it Jinja's template cache, keyed by loader and name) must belong to the walked directory
         rcall = [n for n in ast.walk(W) if isinstance(n, ast.Call) and last_attr(n.func) == "_render_template"]
-        envarg = rcall[0].args[0] if rcall and rcall[0].args else None
+        envarg = source.bind_args(rcall[0], rt).get(rp[0]) if rcall else None
         envdef = adefs.get(envarg.id) if isinstance(envarg, ast.Name) else envarg
         ok = isinstance(envdef, ast.Call) and last_attr(envdef.func) == "Environment" and any(
             isinstance(x, ast.Call) and last_attr(x.func) == "FileSystemLoader" and x.args and u(x.args[0]) == rootv for x in ast.walk(envdef))
@@ -198,14 +274,15 @@ def run(chk):
                (u(envdef)[:80] if envdef is not None else "environment is not created inside the walk") + ("" if ok else " — same-named templates of different directories share one cached template"),
                key=f"{_P}:{tag}:env-per-directory")
         cps = [n for n in ast.walk(W) if isinstance(n, ast.Call) and dotted(n.func) in ("shutil.copy", "shutil.copy2", "shutil.copyfile")]
-        ok = bool(cps) and [u(a) for a in cps[0].args] == ["source_file", "target_file"] and any((not pol) and "plain_text" in u(t) for t, pol in guards(cps[0], stop=W))
+        b = pat.guarded(cps[0], "not plain_text(V_f)", stop=W) if cps else None
+        ok = bool(cps) and srcv is not None and tgtv is not None and [u(a) for a in cps[0].args] == [srcv, tgtv] and b is not None and b["f"] in (srcv, tgtv)
         chk.ob("O13.3", f"{tag}: other files copied verbatim", ok, cps[0] if cps else W, "")
-        sf = adefs.get("source_file")
-        ok = sf is not None and u(sf) == f"os.path.join({rootv}, {source.enclosing(tf[0], ast.For).target.id if tf else 'name'})"
-        chk.ob("O13.3", f"{tag}: source file == join(walked directory, name)", ok, sf if sf is not None else W, "")
+        chk.ob("O13.3", f"{tag}: source file == join(walked directory, name)", srcv is not None, astmt[srcv] if srcv is not None else W, u(adefs[srcv]) if srcv is not None else f"no local is defined as os.path.join({rootv}, {namev}) in the loop over `{filesv}`")
     # docker provisioner: same precedence for its own variables
     DP = pv.cls("DockerProvisioner")
     dinit = pv.methods(DP).get("__init__")
+    if dinit is None:
+        raise AnchorMissing("DockerProvisioner.__init__")
     seq5, g5 = merges_into(dinit, "self.config_vars")
     n5 = [s_ for s_, _ in seq5]
     ddefs = local_defs(dinit)
@@ -213,20 +290,29 @@ def run(chk):
     dkeys = {k.value for k in lastd.keys if isinstance(k, ast.Constant)} if isinstance(lastd, ast.Dict) else set()
     ok = len(n5) >= 2 and n5[0] == "self.car.variables" and {"network_host", "http_port", "transport_port", "data_paths", "node_name", "cluster_name"} <= dkeys and ordered(g5, seq5[0][1], seq5[-1][1])
     chk.ob("O13.1", "docker provisioner: car variables merged before Rally's node variables", ok, seq5[-1][1] if seq5 else dinit, f"merge order: {n5}")
-    rt = pv.func("_render_template")
     rets = [n for n in walk_body(rt) if isinstance(n, ast.Return)]
     ok = False
-    if len(rets) == 1:
-        v = rets[0].value
+    if len(rets) == 1 and rets[0].value is not None:
+        v = source.inline_node(rets[0].value, local_defs(rt))  # through single-assignment locals (`template`, a local holding the rendered text, ...)
         ok = isinstance(v, ast.BinOp) and isinstance(v.op, ast.Add) and source.is_const(v.right, "\n") and isinstance(v.left, ast.Call) and last_attr(v.left.func) in ("render", "rstrip")
     chk.ob("O13.3", "every rendered chunk ends with a newline (appended snippets never glue onto the previous line)", ok, rets[0] if rets else rt, u(rets[0].value) if rets else "")
     pt = pv.func("plain_text")
-    ok = any(isinstance(n, ast.Return) and isinstance(n.value, ast.Compare) and isinstance(n.value.ops[0], ast.In) and isinstance(n.value.comparators[0], (ast.List, ast.Tuple, ast.Set)) and
-             {".yml", ".yaml", ".options", ".properties", ".json", ".ini", ".txt"} <= {e.value for e in n.value.comparators[0].elts if isinstance(e, ast.Constant)} for n in walk_body(pt))
+    ptd = local_defs(pt)
+
+    def table_of(e):
+        """the literal collection a membership test reads: written in place, or a single-assignment local / module constant holding it."""
+        if isinstance(e, ast.Name):
+            e = ptd.get(e.id) if e.id in ptd else pv.module_constant(e.id)
+        return e if isinstance(e, (ast.List, ast.Tuple, ast.Set)) else None
+
+    ok = any(isinstance(n, ast.Return) and isinstance(n.value, ast.Compare) and len(n.value.ops) == 1 and isinstance(n.value.ops[0], ast.In) and table_of(n.value.comparators[0]) is not None and
+             {".yml", ".yaml", ".options", ".properties", ".json", ".ini", ".txt"} <= {e.value for e in table_of(n.value.comparators[0]).elts if isinstance(e, ast.Constant)} for n in walk_body(pt))
     chk.ob("O13.3", "text/binary predicate is one extension table (incl. .yml .options .properties)", ok, pt, "")
     prep = pv.methods(BP).get("prepare")
+    if prep is None:
+        raise AnchorMissing("BareProvisioner.prepare")
     loops = [n for n in walk_body(prep) if isinstance(n, ast.For) and u(n.iter) == "self.es_installer.config_source_paths"]
-    ok = bool(loops) and any(isinstance(x, ast.Call) and u(x.func) == "self.apply_config" and u(x.args[0]) == loops[0].target.id for x in ast.walk(loops[0])) and not guards(loops[0])
+    ok = bool(loops) and any(isinstance(x, ast.Call) and u(x.func) == "self.apply_config" and x.args and u(x.args[0]) == u(loops[0].target) for x in ast.walk(loops[0])) and not guards(loops[0])
     chk.ob("O13.3", "every config base is applied, in order", ok, loops[0] if loops else prep, "")
     csp = pv.methods(EI).get("config_source_paths")
     ok = csp is not None and any(isinstance(n, ast.Return) and u(n.value) == "self.car.config_paths" for n in walk_body(csp))
@@ -237,23 +323,36 @@ def run(chk):
              "preserve-install removes something; or a data path outside the install dir is left behind")
     cu = pv.func("cleanup")
     cp_ = params_of(cu)
-    ifs = [n for n in cu.body if isinstance(n, ast.If) and u(n.test) in (cp_[0], f"not {cp_[0]}")]
+    if len(cp_) < 3:
+        raise AnchorMissing("cleanup(preserve, install_dir, data_paths)")
+    pb = {"p": cp_[0]}
+    ifs = [n for st in cu.body if not isinstance(st, (ast.FunctionDef, ast.AsyncFunctionDef, ast.ClassDef)) for n in source.walk_local(st) if isinstance(n, ast.If) and pat.is_(n.test, "V_p", "not V_p", binds=pb)]
     if not ifs:
         raise AnchorMissing("branch on preserve in cleanup")
     I = ifs[0]
-    pres_arm, del_arm = (I.body, I.orelse) if u(I.test) == cp_[0] else (I.orelse, I.body)
-    dels_in_pres = [x for s in pres_arm for x in ast.walk(s) if isinstance(x, ast.Call) and (last_attr(x.func) in ("delete_path", "rmtree", "remove", "unlink", "rmdir"))]
-    chk.ob("O13.4", "nothing deleted when preserving", not dels_in_pres, I, "")
-    outside = [x for s in cu.body if s is not I and not isinstance(s, ast.FunctionDef) for x in ast.walk(s) if isinstance(x, ast.Call) and last_attr(x.func) in ("delete_path", "rmtree")]
+    # decided on the CFG edges of the test, not on arm position: the preserve edge is the true edge of `if preserve` / the false edge of `if not preserve`
+    gc = cfg_of(cu)
+    tn = gc.node_of(I)
+    pres_lab, del_lab = ("true", "false") if pat.is_(I.test, "V_p", binds=pb) else ("false", "true")
+    after_pres = gc.reachable(gc.edge_targets(tn, pres_lab))  # everything that can still run once the preserve edge was taken
+    own = [x for st in cu.body if not isinstance(st, (ast.FunctionDef, ast.AsyncFunctionDef, ast.ClassDef)) for x in source.walk_local(st)]  # cleanup's own code (the nested delete_path helper is checked separately)
+    dcalls = [x for x in own if isinstance(x, ast.Call) and last_attr(x.func) in ("delete_path", "rmtree", "remove", "unlink", "rmdir") and not is_logging_call(x)]
+    dels_in_pres = [x for x in dcalls if gc.node_of(x).id in after_pres]
+    chk.ob("O13.4", "nothing deleted when preserving", not dels_in_pres, I, f"reachable on the preserve edge: line {dels_in_pres[0].lineno}: {short(dels_in_pres[0])}" if dels_in_pres else "")
+    # every other delete of the function is reachable only through the delete edge of that test (so none runs on the preserve edge, before the test or after the branch)
+    outside = [x for x in dcalls if last_attr(x.func) in ("delete_path", "rmtree") and not gc.dominated_by_edge(gc.node_of(x), tn, del_lab)]
     chk.ob("O13.4", "no delete outside the preserve branch", not outside, outside[0] if outside else cu, "")
-    dl = [x for s in del_arm for x in ast.walk(s) if isinstance(x, ast.For) and u(x.iter) == cp_[2]]
-    ok = bool(dl) and len(dl[0].body) == 1 and isinstance(dl[0].body[0], ast.Expr) and isinstance(dl[0].body[0].value, ast.Call) and last_attr(dl[0].body[0].value.func) == "delete_path" and u(dl[0].body[0].value.args[0]) == dl[0].target.id
+    in_del = lambda x: gc.dominated_by_edge(gc.node_of(x), tn, del_lab)  # noqa: E731
+    dl = [x for x in own if isinstance(x, ast.For) and u(x.iter) == cp_[2] and in_del(x)]
+    lbody = [s_ for s_ in dl[0].body if not (isinstance(s_, ast.Expr) and is_logging_call(s_.value))] if dl else []
+    ok = bool(dl) and len(lbody) == 1 and isinstance(lbody[0], ast.Expr) and isinstance(lbody[0].value, ast.Call) and last_attr(lbody[0].value.func) == "delete_path" and len(lbody[0].value.args) == 1 and u(lbody[0].value.args[0]) == u(dl[0].target)
     chk.ob("O13.4", "every data path is deleted (unconditional loop)", ok, dl[0] if dl else I, "" if ok else "the loop over the data paths filters or skips some paths")
-    di = [x for s in del_arm for x in ast.walk(s) if isinstance(x, ast.Call) and last_attr(x.func) == "delete_path" and u(x.args[0]) == cp_[1]]
-    ok = bool(di) and not guards(di[0], stop=I)
+    di = [x for x in own if isinstance(x, ast.Call) and last_attr(x.func) == "delete_path" and len(x.args) == 1 and u(x.args[0]) == cp_[1] and in_del(x)]
+    # unconditional on the delete edge: its only guard fact is `not preserve`
+    ok = bool(di) and all(pat.is_(f, "not V_p", binds=pb) for f in pat.fact_nodes(di[0]))
     chk.ob("O13.4", "the installation directory is deleted", ok, di[0] if di else I, "")
     dp = [n for n in cu.body if isinstance(n, ast.FunctionDef) and n.name == "delete_path"]
-    ok = bool(dp) and any(isinstance(x, ast.Call) and dotted(x.func) == "shutil.rmtree" and u(x.args[0]) == params_of(dp[0])[0] for x in ast.walk(dp[0]))
+    ok = bool(dp) and any(isinstance(x, ast.Call) and dotted(x.func) == "shutil.rmtree" and x.args and params_of(dp[0]) and u(x.args[0]) == params_of(dp[0])[0] for x in ast.walk(dp[0]))
     chk.ob("O13.4", "delete_path removes the given tree", ok, dp[0] if dp else cu, "")
 
 
